@@ -8,12 +8,11 @@
    lines held by the state. *)
 From Coq Require Import List NArith Bool Arith.
 From Coq Require Import Strings.Byte.
-Require Import BS.Bytes BS.Common BS.Meta.
+Require Import BS.Bytes BS.Common BS.Api BS.Meta.
 Require BSgen.Consts.
 Import ListNotations.
 Close Scope N_scope. Open Scope nat_scope.
 
-Inductive cbmode := CbNone | CbDeny | CbAllow.
 
 (* what a processor closure answers for one line *)
 Inductive pres (St:Type) := PCont (s:St) | PStop (s:St) | PPanic.
@@ -109,7 +108,6 @@ End RWP.
 Arguments RDone {St} acc. Arguments RStopped {St} acc. Arguments RCorrupt {St} acc. Arguments RIo {St} acc. Arguments RPanic {St}.
 
 (* ---- the processors ---- *)
-Definition line := (N * list byte)%type.
 
 (* FileWithInlineMeta::read: collects, asserts ts > last || ts == 0. state = (last, reversed output) *)
 Definition proc_read (s:N * list line) (ts:N) (pay:list byte) : pres (N * list line) :=
